@@ -202,14 +202,23 @@ func (d *Decls) structCtor(t types.Type) string { return sym("mk-" + d.structBas
 
 func (d *Decls) fieldSel(t types.Type, i int) string {
 	st := t.Underlying().(*types.Struct)
-	return sym("f." + d.structBase(t) + "." + st.Field(i).Name())
+	return sym("f." + d.structBase(t) + "." + fieldName(st, i))
+}
+
+// fieldName: blank fields (several may exist in one struct) are distinguished by their index
+func fieldName(st *types.Struct, i int) string {
+	n := st.Field(i).Name()
+	if n == "_" {
+		return fmt.Sprintf("_%d", i)
+	}
+	return n
 }
 
 // Heap of field i of struct type t (for access through pointers): Array Int <fieldsort>.
 // Struct-typed fields have no heap of their own: their address is sub_T_f(base).
 func (d *Decls) fieldHeap(t types.Type, i int) string {
 	st := t.Underlying().(*types.Struct)
-	name := "H." + d.structBase(t) + "." + st.Field(i).Name()
+	name := "H." + d.structBase(t) + "." + fieldName(st, i)
 	if _, ok := d.heapSort[name]; !ok {
 		d.heapSort[name] = "(Array Int " + d.sortOf(st.Field(i).Type()) + ")"
 		d.refHeap[name] = isRefLike(st.Field(i).Type())
@@ -220,7 +229,7 @@ func (d *Decls) fieldHeap(t types.Type, i int) string {
 // subRef returns the function symbol mapping a struct base ref to the interior ref of its struct-typed field i.
 func (d *Decls) subRef(t types.Type, i int) string {
 	st := t.Underlying().(*types.Struct)
-	name := sym("sub." + d.structBase(t) + "." + st.Field(i).Name())
+	name := sym("sub." + d.structBase(t) + "." + fieldName(st, i))
 	if !d.seen["sub:"+name] {
 		k := len(d.subKinds) + 1
 		d.subKinds[name] = k
